@@ -32,10 +32,12 @@ func init() { register("C19", "exploration", checkC19) }
 
 // a shared object under test: named read-only operations returning a digest of their result
 type c19Obj struct {
-	kind  string
-	ops   []string
-	call  func(op string) string
-	state func() string // observable state, must not change
+	kind   string
+	ops    []string
+	call   func(op string) string
+	state  func() string            // observable state, must not change
+	expect map[string]string        // results obtained on separate fresh objects, one per question (no call history)
+	fresh  func() (*c19Obj, error)  // an equivalent object that has not been used yet
 }
 
 func dig(b []byte) string { h := sha256.Sum256(b); return fmt.Sprintf("%d:%x", len(b), h[:8]) }
@@ -89,6 +91,20 @@ func c19Image(kind string, img []byte, certs []*x509.Certificate, reparse bool, 
 		}
 	}
 	o.state = func() string { return fmt.Sprintf("%s dd=%+v", dig(bin.Bytes()), bin.Datadir) }
+	// what each certificate gets on an object that was never asked anything else
+	var sb strings.Builder
+	for _, c := range certs {
+		fb, err := authenticode.Parse(bytes.NewReader(img))
+		if err != nil {
+			return nil, err
+		}
+		ok, err := fb.Verify(c)
+		fmt.Fprintf(&sb, "%v/%v;", ok, err != nil)
+	}
+	o.expect = map[string]string{"Verify": sb.String()}
+	if viaFile == "" {
+		o.fresh = func() (*c19Obj, error) { return c19Image(kind, img, certs, reparse, "") }
+	}
 	return o, nil
 }
 
@@ -163,9 +179,17 @@ func c19Database(kind string, db *signature.SignatureDatabase) *c19Obj {
 	o.state = func() string {
 		var sb strings.Builder
 		for _, l := range *db {
-			fmt.Fprintf(&sb, "[%d %d %d %d]", l.ListSize, l.HeaderSize, l.Size, len(l.Signatures))
+			fmt.Fprintf(&sb, "[%x %d %d %d %d]", fromLib(l.SignatureType).Wire()[:4], l.ListSize, l.HeaderSize, l.Size, len(l.Signatures))
 		}
 		return dig(db.Bytes()) + sb.String()
+	}
+	enc := db.Bytes()
+	o.fresh = func() (*c19Obj, error) {
+		nd, err, p := libDecodeESL(enc)
+		if err != nil || p != "" {
+			return nil, fmt.Errorf("re-decode: %v %s", err, p)
+		}
+		return c19Database(kind, &nd), nil
 	}
 	return o
 }
@@ -268,6 +292,12 @@ func c19Objects(dir string) ([]*c19Obj, error) {
 	db.Append(signature.CERT_SHA256_GUID, *util.StringToGUID("aaaaaaaa-bbbb-cccc-dddd-eeeeeeeeeeee"), bytes.Repeat([]byte{9, 0}, 16))
 	objs = append(objs, c19Database("database-decoded", &db))
 	objs = append(objs, c19Database("database-api-built", c12db(4, 9)))
+	long := c12db(0, 9)
+	for i := 0; i < 400; i++ {
+		long.Append(signature.CERT_SHA256_GUID, *util.StringToGUID("aaaaaaaa-bbbb-cccc-dddd-eeeeeeeeeeee"), bytes.Repeat([]byte{9, byte(i), byte(i >> 8), 7}, 8))
+	}
+	long.Append(signature.CERT_SHA256_GUID, *util.StringToGUID("aaaaaaaa-bbbb-cccc-dddd-eeeeeeeeeeee"), bytes.Repeat([]byte{9, 0}, 16))
+	objs = append(objs, c19Database("database-long-list", long))
 	if err := add(c19SignedUpdate(cs)); err != nil {
 		return nil, err
 	}
@@ -303,6 +333,11 @@ func c19ChildMain() {
 		for _, op := range o.ops {
 			base[op] = o.call(op)
 		}
+		for op, want := range o.expect {
+			if base[op] != want {
+				viol("result-depends-on-call-history|%s|%s: on the shared object %s, on objects never asked anything else %s", o.kind, op, base[op], want)
+			}
+		}
 		st0 := o.state()
 		// sequential: all orders (5 ops → 120), each op twice per order
 		perms := permutations(len(o.ops))
@@ -334,6 +369,15 @@ func c19ChildMain() {
 			g := []int{2, 4, 8, 16}[round%4]
 			procs := []int{2, 4, 16}[(round/4)%3]
 			runtime.GOMAXPROCS(procs)
+			// every third round runs on an equivalent object that has never been used,
+			// so that first-use initialisation happens under concurrency
+			target := o
+			if round%3 == 2 && o.fresh != nil {
+				if f, err := o.fresh(); err == nil {
+					target = f
+					rep.Ops[o.kind+":fresh-object-rounds"]++
+				}
+			}
 			type iv struct {
 				op       int
 				call, ret int64
@@ -356,7 +400,7 @@ func c19ChildMain() {
 						oi := rng.Intn(len(o.ops))
 						t0 := atomic.AddInt64(&clock, 1)
 						var got string
-						if p := tryP(func() { got = o.call(o.ops[oi]) }); p != "" {
+						if p := tryP(func() { got = target.call(o.ops[oi]) }); p != "" {
 							got = "PANIC " + p
 						}
 						t1 := atomic.AddInt64(&clock, 1)
